@@ -583,8 +583,8 @@ func TestC13(t *testing.T) {
 	endToEnd(run, rng, tr)
 	endToEndConcurrent(run, tr)
 	run.Require("stream_cases", int64(n))
-	run.Require("e2e_concurrent_cases", int64(rep.Pick(480, 6000)/map[bool]int{true: 3, false: 1}[rep.Mode() == "race"]))
-	run.Require("e2e_cases", int64(rep.Pick(60, 800)/map[bool]int{true: 3, false: 1}[rep.Mode() == "race"]))
+	run.Require("e2e_concurrent_cases", int64(rep.Pick(480, 6000)/map[bool]int{true: 6, false: 1}[rep.Mode() == "race"]))
+	run.Require("e2e_cases", int64(rep.Pick(60, 800)/map[bool]int{true: 5, false: 1}[rep.Mode() == "race"]))
 	run.Finish(t)
 }
 
